@@ -538,6 +538,16 @@ def _run_fall(case):
     _note_shelf(F.Sf_template, evs)
     obs = {"init_evs": _plain(evs), "passes": []}
     fresh = {}
+    # the TEMPLATE is edited after the Snowfall has been built (its matrices were pre-built then): entries of k,
+    # the attached operating conditions / time step.  Every mode must give the same repetitions.
+    te = case.get("tmpl_edit") or {}
+    for key, val in (te.get("k") or {}).items():
+        F.Sf_template.k[key] = val
+    if te.get("cfg"):
+        _apply_cfg(F.Sf_template, _spec(case, te["cfg"], case.get("start")))
+    # edits of k after the matrices exist are outside the stated assumptions (the pre-built matrices are kept by
+    # every mode alike): for them only the agreement of the modes is judged, not the stand-alone run
+    obs["no_fresh"] = bool(te.get("k"))
     for how in case["hows"]:
         F.run(how=how)
         tasks = []
@@ -546,8 +556,9 @@ def _run_fall(case):
             t = st.pop("_c04")
             t["seed"] = int(i)
             t["digest_parent"] = _digest(st)
-            t["fresh"] = _fresh(case, int(i), case["nv"], fresh, (case.get("kw") or {}).get("seed_v"), 0, case.get("start"),
-                                case.get("yaml"))
+            t["fresh"] = t["digest_parent"] if obs["no_fresh"] else \
+                _fresh(case, int(i), case["nv"], fresh, (case.get("kw") or {}).get("seed_v"), te.get("cfg", 0),
+                       case.get("start"), case.get("yaml"))
             tasks.append(t)
         # chunks: tasks grouped by the object copy they ran on, in execution order
         groups = {}
@@ -806,6 +817,8 @@ def classify(case, impl):
     elif case["kind"] == "fall":
         tags += [f"hows={'+'.join(case['hows'])}", f"pool={case['pool']}", f"nrep={case['nrep']}"]
         tags += [f"kw:{k}" for k in (case.get("kw") or {})]
+        if case.get("tmpl_edit"):
+            tags.append("template edited after construction: " + "+".join(sorted(case["tmpl_edit"])))
     return tags
 
 
@@ -1005,6 +1018,11 @@ def cases(rng, tier):
                    decoy_yaml={"solution.solid_fraction": 0.12}, yaml=rng.choice([None, {"water.cp_w": 4050}]), xref=True)
     yield dict(kind="fall", sigma=0, nv=[1, 1, 1], nrep=3, pool=2, hows=["sequential", "async"],
                init=dict(form="list", value=5))
+    # the template is edited after construction, then the study is run in all three modes on that Snowfall
+    for te in ({"k": {"int": 0}}, {"k": {"ext": 60}}, {"cfg": 1}, {"cfg": 2, "k": {"int": 5}}, {"cfg": 3}):
+        for hows in (["sequential", "async", "sync"], ["sync", "sequential", "async"]):
+            yield dict(kind="fall", sigma=rng.choice([0.1, 0]), nv=rng.choice([[3, 3, 1], [2, 3, 1]]), nrep=3, pool=2,
+                       hows=hows, tmpl_edit=te, cfgs=_cfg_specs(rng))
     # one Snowfall object run several times (sequential mutates the template)
     for hows in (["sequential", "sequential"], ["sequential", "async"], ["async", "sequential", "sync"]):
         for sigma in (0.1, 0):
